@@ -184,7 +184,7 @@ func deepHash(vs ...interface{}) string {
 
 type c10Pair struct {
 	shared, distinct, nilBoth, dropped, added, typeChanged int
-	seen                                                    map[[2]uintptr]bool
+	seen                                                   map[[2]uintptr]bool
 }
 
 func (w *c10Pair) walk(a, b reflect.Value, depth int) {
